@@ -22,7 +22,7 @@ TOp == /\ IsEvent("op") /\ cur = "none" /\ l > 1
 TReport == /\ IsEvent("report") /\ cur # "none"
            /\ IF cur \in DOMAIN SelfChecks
                 THEN alive' = (IF Ev.kind = SelfChecks[cur] THEN alive \cup {cur} ELSE alive)
-                ELSE ReportAllowed(cur, Ev.kind, Ev.fn) /\ alive' = alive
+                ELSE ReportAllowed(cur, Ev.kind, Ev.fn, Ev.frames) /\ alive' = alive
            /\ UNCHANGED <<cur, done, aes, ran>>
 TEnd == /\ IsEvent("end") /\ cur = Ev.op
         /\ cur' = "none" /\ done' = done \cup {cur} /\ UNCHANGED <<alive, aes, ran>>
